@@ -70,8 +70,15 @@ def ref_calibration_objective(result, project, output_quantities):
             continue
         t_data = np.array(ts.t, dtype=float)
         y = np.array(ts.vals, dtype=float)
-        v = result.model.get_pop(pop).get_variable(var)[0]
-        y2 = np.interp(t_data, v.t, v.vals, left=np.nan, right=np.nan)
+        if pop.lower() == "total":
+            # documented: the model output is aggregated over all populations (sum for number quantities - the only
+            # kind the workload poses with a 'Total' row)
+            vs = [p_.get_variable(var)[0] for p_ in result.model.pops]
+            vt, vv = vs[0].t, np.sum([np.asarray(v_.vals, dtype=float) for v_ in vs], axis=0)
+        else:
+            v = result.model.get_pop(pop).get_variable(var)[0]
+            vt, vv = v.t, v.vals
+        y2 = np.interp(t_data, vt, vv, left=np.nan, right=np.nan)
         ok = ~np.isnan(y) & ~np.isnan(y2)
         y, y2 = y[ok], y2[ok]
         if metric == "fractional":
@@ -84,6 +91,19 @@ def ref_calibration_objective(result, project, output_quantities):
             raise ValueError(metric)
         total += weight * s
     return total
+
+
+def add_total_rows(at, P, spec):
+    """Databook rows for the aggregate pseudo-population 'Total' (documented for calibration) for every measurable that asks for it."""
+    for var, pop, w, metric in [tuple(m) for m in spec.get("measurables", [])]:
+        if pop != "Total" or var not in P.data.tdve or "Total" in P.data.tdve[var].ts:
+            continue
+        tdve = P.data.tdve[var]
+        years = sorted({float(t_) for ts in tdve.ts.values() for t_ in ts.t})
+        tot = at.TimeSeries(units=list(tdve.ts.values())[0].units)
+        for y_ in years:
+            tot.insert(y_, 1.1 * float(sum(ts.interpolate(np.array([y_]))[0] for ts in tdve.ts.values())))
+        tdve.ts["Total"] = tot
 
 
 def ref_measurable_value(model, name, t, pop_names):
@@ -259,6 +279,8 @@ def gen_calibration(ch):
         var, pop = mc[ch.choose(f"meas[{i}]", len(mc))]
         if ch.flip(f"meas[{i}].allpops", 0.3):
             pop = None
+        elif len(pops) > 1 and var in fw.comps.index and ch.flip(f"meas[{i}].total_row", 0.25):
+            pop = "Total"  # the documented aggregate row (number quantity: compared with the sum over populations)
         weight = [1.0, 0.5, 2.0][ch.choose(f"meas[{i}].weight", 3)]
         metric = ["fractional", "wape", "meansquare"][ch.choose(f"meas[{i}].metric", 3)]
         measurables.append((var, pop, weight, metric))
@@ -429,6 +451,12 @@ def execute(spec, fault, bump):
 
     kind = spec["kind"]
     P = _CORPUS[spec["project"]].project()
+    if kind == "calibrate":
+        import atomica as _at_
+
+        add_total_rows(_at_, P, spec)
+        if fault is None and any(m[1] == "Total" for m in spec["measurables"]):
+            bump("probe:calibration_against_total_row")
     if spec.get("dt"):
         P.settings.update_time_vector(dt=spec["dt"])
     if spec.get("end_offset"):
@@ -886,6 +914,7 @@ def execute(spec, fault, bump):
         with _unpatched_process(amodel, None):
             end = min(P.data.tvec[-1], P.settings.sim_end)
             P2 = _CORPUS[spec["project"]].project()
+            add_total_rows(at, P2, spec)
             if spec.get("dt"):
                 P2.settings.update_time_vector(dt=spec["dt"])
             P2.settings.update_time_vector(end=end)
